@@ -1,6 +1,7 @@
 """C08 - Probabilistic scores follow their definitions; event probability from the CDF."""
 import copy
 import math
+import os
 import statistics
 
 from hypothesis import strategies as st
@@ -350,6 +351,68 @@ def reference(name, kind, ds, i, ax, k, bt, t0, t1, ctx):
     return None, tol, False
 
 
+# ---- stored thresholds that are not exactly representable in the file's float32 ------------------
+def stored_strategy(tier):
+    @st.composite
+    def s(draw):
+        spec = draw(gen.dataset(max_inputs=1, clim=False, flavor="full", core_max=3, extra_max=0, allow_drop=False, allow_obsless=False,
+                                max_members=3, allow_all_missing=False))
+        shift = draw(st.sampled_from([0.3, 0.1, 1.1, 0.7]))
+        return {"spec": spec, "shift": shift, "metric": draw(st.sampled_from(["bs", "bs", "threshold", "ign0", "bsrel"])),
+                "axis": draw(st.sampled_from(["no", "leadtime", "location"])), "which": draw(st.integers(0, 2))}
+    return s()
+
+
+_scount = [0]
+
+
+def check_stored(case, ctx):
+    """The probability at a threshold the file stores comes from the file's cdf, also when the threshold (0.3, 1.1 ...)
+    is only approximately representable in the NetCDF file's float32: the NetCDF and the text file give the same score."""
+    import copy
+    from .. import drive, mat
+    if "shift" not in case:
+        return check_dataset(case, ctx)
+    spec = copy.deepcopy(case["spec"])
+    d = spec["inputs"][0]
+    if not d.get("thresholds"):
+        return
+    d["thresholds"] = [round(t + case["shift"], 6) for t in d["thresholds"]]
+    t = sorted(d["thresholds"])[case["which"] % len(d["thresholds"])]
+    _scount[0] += 1
+    base = os.path.join(ctx.scratch, "st%d" % _scount[0])
+    os.makedirs(base)
+    nc = os.path.join(base, "f.nc")
+    txt = os.path.join(base, "f.txt")
+    mat.write_netcdf(d, spec, nc)
+    mat.write_text(d, spec, txt)
+    tail = ["-m", case["metric"], "-r", repr(float(t)), "-x", case["axis"], "-type", "csv"]
+    r1 = drive.run([nc] + tail)
+    r2 = drive.run([txt] + tail)
+    ctx.evals += 1
+    ctx.label("stored/" + case["metric"])
+    sub = dict(case)
+    for r in (r1, r2):
+        if r.exc is not None:
+            ctx.fail("C08/stored/exc/" + r.exc_key, sub, r.tb[-500:])
+            return
+    if r1.exit not in (None, 0) or r2.exit not in (None, 0):
+        if (r1.exit in (None, 0)) != (r2.exit in (None, 0)):
+            ctx.fail("C08/stored/exit", sub, "-r %r: NetCDF run exit %r (%s), text run exit %r (%s)" % (t, r1.exit, r1.error_lines()[:1], r2.exit, r2.error_lines()[:1]))
+        return
+    h1, rows1 = drive.parse_csv(r1.lines())
+    h2, rows2 = drive.parse_csv(r2.lines())
+    ctx.nt(("stored", t, case["metric"], case["axis"], d["cdf"], d.get("ens")))
+    if len(rows1) != len(rows2):
+        ctx.fail("C08/stored/rows", sub, "%d rows from the NetCDF file, %d from the text file" % (len(rows1), len(rows2)))
+        return
+    for k, (a, b) in enumerate(zip(rows1, rows2)):
+        if not cmpx.close(float(a[-1]), float(b[-1]), 2e-5):
+            ctx.fail("C08/stored/" + case["metric"], sub, "-m %s -r %r row %d: %r from the NetCDF file (threshold stored as float32), %r from the text file: the stored probability was not used"
+                     % (case["metric"], t, k, a[-1], b[-1]))
+            return
+
+
 # ---- ensemble-derived quantiles: validity ---------------------------------------------------
 def ensq_strategy(tier):
     @st.composite
@@ -424,4 +487,5 @@ def campaigns(tier):
         Hyp("vectors", vector_strategy, check_vectors, quick=4800, thorough=100000, budget_quick=40, budget_thorough=900),
         Hyp("datasets", ds_strategy, check_dataset, quick=1600, thorough=40000, budget_quick=55, budget_thorough=1500),
         Hyp("ens-quantile", ensq_strategy, check_ensq, quick=800, thorough=20000, budget_quick=40, budget_thorough=900),
+        Hyp("stored-thresholds", stored_strategy, check_stored, quick=320, thorough=8000, budget_quick=40, budget_thorough=900),
     ]
